@@ -317,6 +317,7 @@ def check(chk, repo, tier):
         if ok_all:
             chk.ob("C09.stack-use", cons, True,
                    sample={"modifier": key})
+        modifier_template_rules(chk, cons, tree, EF, knode.lineno)
 
     # modifier wrappers: a single element passes its arity on to the lambda ---------
     n_wrap = 0
@@ -447,6 +448,77 @@ def check(chk, repo, tier):
 WITNESS = {
     "¨ẇ": "1 2 3 2¨ẇ: an arity-1 element consumes 1+n entries",
 }
+
+
+def modifier_template_rules(chk, cons, tree, EF, line):
+    """(1) `function_call(stack, ...)` calls whatever is on top of the stack:
+    in a modifier it must come right after the modifier pushed its own
+    function, in the same block (else it consumes an entry of the program's).
+    (2) ctx.retain_popped makes every pop re-push: a template that switches
+    it on must have switched it off again on every path to its end."""
+    for n in ast.walk(tree):
+        if isinstance(n, ast.Call) and (dotted(n.func) or "") == \
+                "function_call" and n.args and isinstance(
+                n.args[0], ast.Name) and n.args[0].id == "stack":
+            st = n
+            while not isinstance(st, ast.stmt):
+                st = st._parent
+            par = getattr(st, "_parent", None)
+            prev = None
+            for field in ("body", "orelse", "finalbody"):
+                seq = getattr(par, field, None)
+                if isinstance(seq, list) and any(st is x for x in seq):
+                    i = [k for k, x in enumerate(seq) if x is st][0]
+                    prev = seq[i - 1] if i > 0 else None
+            pushed = isinstance(prev, ast.Expr) and isinstance(
+                prev.value, ast.Call) and (dotted(prev.value.func) or "") == \
+                "stack.append" and prev.value.args and isinstance(
+                prev.value.args[0], ast.Name) and prev.value.args[0].id in (
+                "function_A", "function_B", "function_C")
+            chk.ob("C09.call-follows-own-push", f"{cons}:function_call", pushed,
+                   "`function_call(stack, ...)` is not directly preceded, in "
+                   "its own block, by the push of the modifier's function: on "
+                   "the other path it calls (pops) an entry of the program's "
+                   "stack", EF, line, witness="7 8 0 ß+  loses the 8")
+
+    def walk(stmts, state):
+        """state: True = retain switched on; returns state at the end, None
+        if the block cannot complete"""
+        for st in stmts:
+            if state is None:
+                return None
+            if isinstance(st, ast.Assign) and any(
+                    (dotted(t) or "") == "ctx.retain_popped"
+                    for t in st.targets):
+                v = st.value
+                state = not (isinstance(v, ast.Constant)
+                             and v.value is False)
+            elif isinstance(st, ast.If):
+                a = walk(st.body, state)
+                b = walk(st.orelse, state)
+                live = [x for x in (a, b) if x is not None]
+                state = None if not live else any(live)
+            elif isinstance(st, (ast.For, ast.While)):
+                inner = walk(st.body, state)
+                state = state or bool(inner)
+            elif isinstance(st, ast.Try):
+                outs = [walk(st.body, state)] + [walk(h.body, state)
+                                                  for h in st.handlers]
+                live = [x for x in outs if x is not None]
+                state = None if not live else any(live)
+            elif isinstance(st, (ast.Return, ast.Raise)):
+                if state:
+                    return True
+                return None
+        return state
+    writes = [n for n in ast.walk(tree) if isinstance(n, ast.Assign) and any(
+        (dotted(t) or "") == "ctx.retain_popped" for t in n.targets)]
+    if writes:
+        end = walk(tree.body, False)
+        chk.ob("C09.retain-flag-restored", cons, not end,
+               "the template can end with ctx.retain_popped still switched "
+               "on: every later element re-pushes what it pops", EF, line,
+               witness="~₀ + on a stack 4 5 leaves 4 5 9")
 
 
 def emitted_arity(chk, repo, gen):
